@@ -59,7 +59,7 @@ func ErrorDiscipline(c *Ctx, id string, floor int) {
 	for _, f := range c.Mech {
 		isRoot[f] = true
 	}
-	for _, f := range reachable(c, c.Mech, 2) {
+	for _, f := range reachable(c, c.Mech, 4) {
 		fns = append(fns, closures(f)...)
 		if os.Getenv("XPCHECK_LIST_REACH") != "" && !isRoot[f] {
 			n := 0
@@ -71,6 +71,8 @@ func ErrorDiscipline(c *Ctx, id string, floor int) {
 	}
 	sort.Slice(fns, func(i, j int) bool { return fns[i].Pos() < fns[j].Pos() })
 	statelessness(c, fns)
+	conflictsNotFiltered(c, fns)
+	canFail(c, fns)
 	for _, fn := range fns {
 		nres := fn.Signature.Results().Len()
 		if nres == 0 || fn.Signature.Results().At(nres-1).Type().String() != "error" {
@@ -86,6 +88,7 @@ func ErrorDiscipline(c *Ctx, id string, floor int) {
 			if ev != nil {
 				guardedUse(c, fn, call, ev)
 				testedOnly(c, fn, call, ev)
+				notOverwritten(c, fn, call, ev)
 			}
 			if ev == nil || (len(ev.Fail) == 0 && len(ev.PredTrue) == 0) {
 				continue
@@ -435,16 +438,66 @@ func testedOnly(c *Ctx, fn *ssa.Function, call ssa.CallInstruction, ev *cfgx.Err
 	if ev.Err == nil || ev.Dropped || len(ev.Fail) == 0 || ev.Err.Referrers() == nil {
 		return
 	}
-	for _, r := range *ev.Err.Referrers() {
-		switch r := r.(type) {
-		case *ssa.DebugRef:
-		case *ssa.BinOp:
-			if !(cfgx.IsNilConst(r.X) || cfgx.IsNilConst(r.Y)) {
-				return
-			}
-		default:
-			return
+	// does the error value - itself or wrapped - get anywhere (returned, stored, logged, passed on)?
+	seen := map[ssa.Value]bool{}
+	var sinks func(v ssa.Value, d int) bool
+	sinks = func(v ssa.Value, d int) bool {
+		if v.Referrers() == nil || seen[v] || d > 6 {
+			return false
 		}
+		seen[v] = true
+		for _, r := range *v.Referrers() {
+			switch r := r.(type) {
+			case *ssa.DebugRef:
+			case *ssa.BinOp:
+				if !(cfgx.IsNilConst(r.X) || cfgx.IsNilConst(r.Y)) {
+					return true
+				}
+			case *ssa.Call:
+				if n := cfgx.CalleeName(r); strings.HasSuffix(n, "errors.Wrap") || strings.HasSuffix(n, "errors.Wrapf") || strings.HasSuffix(n, "errors.WithMessage") || strings.HasSuffix(n, "fmt.Errorf") || strings.HasSuffix(n, "errors.Errorf") {
+					if sinks(r, d+1) {
+						return true
+					}
+					continue
+				}
+				return true
+			case *ssa.MakeInterface:
+				if sinks(r, d+1) {
+					return true
+				}
+			case *ssa.Phi:
+				if sinks(r, d+1) {
+					return true
+				}
+			case *ssa.Store:
+				// a variadic argument slot of a wrapping call, or a real store
+				if ia, ok := r.Addr.(*ssa.IndexAddr); ok {
+					if a, ok := ia.X.(*ssa.Alloc); ok && a.Referrers() != nil {
+						hit := false
+						for _, ar := range *a.Referrers() {
+							if sl, ok := ar.(*ssa.Slice); ok && sinks(sl, d+1) {
+								hit = true
+							}
+						}
+						if hit {
+							return true
+						}
+						continue
+					}
+				}
+				return true
+			case *ssa.Slice:
+				if sinks(r, d+1) {
+					return true
+				}
+			default:
+				return true
+			}
+		}
+		return false
+	}
+	if sinks(ev.Err, 0) {
+		return
 	}
 	name := fn.Name()
 	if i := strings.LastIndex(name, "$"); i > 0 {
@@ -597,4 +650,147 @@ func statelessness(c *Ctx, fns []*ssa.Function) {
 		_, ok := keptState[short]
 		c.R.Check(ok, "state kept by the mechanism: "+short, found[k], "tabled: "+keptState[short], "a function of the mechanism writes "+short+", which outlives the invocation and is not among the state the mechanism is known to keep: a later decision can rest on what an earlier invocation saw (memo, cache) instead of on what is read now")
 	}
+}
+
+// conflictsNotFiltered: an optimistic-concurrency conflict says the copy the
+// mechanism decided on was stale. The tree reacts to it explicitly (requeue,
+// return) and never passes IsConflict to an error filter (resource.Ignore /
+// IgnoreAny), which would carry on with the stale copy as if the write had succeeded.
+func conflictsNotFiltered(c *Ctx, fns []*ssa.Function) {
+	for _, fn := range fns {
+		for _, x := range cfgx.Calls(fn, nil) {
+			n := cfgx.CalleeName(x)
+			if !strings.HasSuffix(n, "resource.Ignore") && !strings.HasSuffix(n, "resource.IgnoreAny") {
+				continue
+			}
+			filtersConflict := false
+			var visit func(v ssa.Value, d int)
+			seen := map[ssa.Value]bool{}
+			visit = func(v ssa.Value, d int) {
+				if v == nil || d > 8 || seen[v] {
+					return
+				}
+				seen[v] = true
+				switch v := v.(type) {
+				case *ssa.Function:
+					if v.Name() == "IsConflict" {
+						filtersConflict = true
+					}
+				case *ssa.ChangeType:
+					visit(v.X, d+1)
+				case *ssa.MakeInterface:
+					visit(v.X, d+1)
+				case *ssa.MakeClosure:
+					visit(v.Fn, d+1)
+				case *ssa.Slice:
+					visit(v.X, d+1)
+				case *ssa.Alloc:
+					if v.Referrers() != nil {
+						for _, r := range *v.Referrers() {
+							if ia, ok := r.(*ssa.IndexAddr); ok && ia.Referrers() != nil {
+								for _, u := range *ia.Referrers() {
+									if st, ok := u.(*ssa.Store); ok {
+										visit(st.Val, d+1)
+									}
+								}
+							}
+						}
+					}
+				case *ssa.Phi:
+					for _, e := range v.Edges {
+						visit(e, d+1)
+					}
+				}
+			}
+			for _, a := range x.Common().Args {
+				visit(a, 0)
+			}
+			c.R.Check(!filtersConflict, load.FuncName(fn)+": "+site(x)+" keeps conflicts", c.pos(x.Pos()), "this error filter does not swallow conflicts", "IsConflict is passed to an error filter: after a rejected write the function carries on with the copy the API server just called stale")
+		}
+	}
+}
+
+// alwaysNil: "<function>" that report success whatever their steps return, by design
+var alwaysNil = map[string]string{}
+
+// canFail: a function that returns an error and contains steps whose failure
+// it tests does hand back something other than a literal nil on at least one
+// path. (A named or declared error result that a shadowing `err :=` never
+// assigns makes every return nil: the function cannot fail any more.)
+func canFail(c *Ctx, fns []*ssa.Function) {
+	for _, fn := range fns {
+		res := fn.Signature.Results()
+		if res.Len() == 0 || res.At(res.Len()-1).Type().String() != "error" || fn.Blocks == nil {
+			continue
+		}
+		tested := 0
+		for _, call := range cfgx.Calls(fn, nil) {
+			if ev := cfgx.ErrEvents(call); ev != nil && len(ev.Fail) > 0 {
+				tested++
+			}
+		}
+		if tested == 0 {
+			continue
+		}
+		nonNil := false
+		for _, v := range cfgx.ReturnedValues(fn, res.Len()-1) {
+			if !cfgx.IsNilConst(v) {
+				nonNil = true
+			}
+		}
+		if _, ok := alwaysNil[fn.Name()]; ok {
+			continue
+		}
+		c.R.Check(nonNil, load.FuncName(fn)+": can report failure", c.pos(fn.Pos()), "some return hands back an error value", "every return of this function is a nil error although it tests the failure of its steps: no failure can reach the caller")
+	}
+}
+
+// notOverwritten: the error of a step made in a loop is looked at in that
+// iteration. An error that is only carried round the loop (to be returned after
+// it) is overwritten by the next iteration's: a failure is forgotten as soon
+// as a later element succeeds.
+func notOverwritten(c *Ctx, fn *ssa.Function, call ssa.CallInstruction, ev *cfgx.ErrEv) {
+	if ev.Err == nil || ev.Dropped || ev.Err.Referrers() == nil {
+		return
+	}
+	loop := cfgx.LoopOf(call.Block())
+	if loop == nil {
+		return
+	}
+	h := cfgx.LoopHeader(loop)
+	carried := false
+	var walk func(v ssa.Value, d int)
+	seen := map[ssa.Value]bool{}
+	walk = func(v ssa.Value, d int) {
+		if v.Referrers() == nil || seen[v] || d > 4 {
+			return
+		}
+		seen[v] = true
+		for _, r := range *v.Referrers() {
+			if p, ok := r.(*ssa.Phi); ok {
+				if p.Block() == h {
+					carried = true
+				} else if loop[p.Block()] {
+					walk(p, d+1)
+				}
+			}
+		}
+	}
+	walk(ev.Err, 0)
+	if !carried {
+		return
+	}
+	// tested (or returned) inside the loop?
+	inLoop := false
+	for _, e := range append(append([]cfgx.Edge{}, ev.Fail...), ev.OK...) {
+		if loop[e.From] {
+			inLoop = true
+		}
+	}
+	for _, r := range cfgx.ReturnsFromLoop(loop) {
+		if len(r.Results) > 0 && flow.Default.Any(r.Results[len(r.Results)-1], func(v ssa.Value) bool { return v == ev.Err }) {
+			inLoop = true
+		}
+	}
+	c.R.Check(inLoop, load.FuncName(fn)+": "+site(call)+" failure looked at in its iteration", c.pos(call.Pos()), "the error of this step is tested or returned inside the loop", "the error of this step is only carried to the next iteration, which overwrites it: the failure of one element is forgotten when a later one succeeds")
 }
